@@ -142,6 +142,17 @@ def _stack_of(t):
     return " > ".join(out)
 
 
+_CACHE = {}
+
+
+def execute_cached(case):
+    """The replay tier and the enumeration of one process run identical cases: execute once."""
+    h = core.case_hash(case)
+    if h in _CACHE:
+        return _CACHE.pop(h)
+    return execute(case)
+
+
 def execute(case):
     """Run one case. Returns dict(viol=[(clause, detail)], nontrivial=bool, info=dict)."""
     from paramiko.packet import Packetizer
@@ -188,8 +199,9 @@ def execute(case):
         chP = chans_s if role == "client" else chans_c
         for ch in chT:
             ch.settimeout(WAIT)
+        kept = []  # forwarded channels must stay referenced (Channel.__del__ closes them)
         if role == "client" and "open:accepted" in ms:
-            T.request_port_forward("127.0.0.1", 4242, handler=lambda ch, o, s: None)
+            T.request_port_forward("127.0.0.1", 4242, handler=lambda ch, o, s: kept.append(ch))
         P.raw()
         if not link.wait_quiescent(WAIT):
             raise core.HarnessError("link not quiescent after setup")
@@ -337,6 +349,8 @@ def execute(case):
                     delivered[i] = "exc %r" % (e,)
         alive = (T.is_active(), P.is_active())
         t_exc = T.get_exception() if not alive[0] else None
+        if t_exc is None and opres.get("T-renegotiate", ("", ""))[0] == "exc":
+            t_exc = "(raised by renegotiate_keys) " + opres["T-renegotiate"][1]
         snap = wire.snapshot()
         p_ids = [c.get_id() for c in chP]
     finally:
@@ -387,11 +401,11 @@ def execute(case):
             rt = reply_types(kind)
             if rt:
                 if kind.startswith("open:"):
-                    match = [r for r in rows if r[0] > g_kx and r[3] in rt and r[4][:4] == R.u32(1000 + i)]
+                    match = [r for r in rows if r[0] > g_rel and r[3] in rt and r[4][:4] == R.u32(1000 + i)]
                 elif kind == "global:1":
-                    match = [r for r in rows if r[0] > g_kx and r[3] in rt]
+                    match = [r for r in rows if r[0] > g_rel and r[3] in rt]
                 else:
-                    match = [r for r in rows if r[0] > g_kx and r[3] in rt and r[4][:4] == R.u32(p_ids[i])]
+                    match = [r for r in rows if r[0] > g_rel and r[3] in rt and r[4][:4] == R.u32(p_ids[i])]
                 if not match:
                     lost.append("reply %r to M[%d]=%s never sent" % (rt, i, kind))
             if delivered.get(i) not in (None, True):
@@ -468,8 +482,8 @@ class Runner:
 
     def map(self, cases):
         if self.pool is None or len(cases) <= 1:
-            return [execute(c) for c in cases]
-        return list(self.pool.map(execute, cases))
+            return [execute_cached(c) for c in cases]
+        return list(self.pool.map(execute_cached, cases))
 
     def report(self, case, result, bucket):
         """One component (or an irreducible combination) failed: report every clause it shows.
@@ -590,4 +604,7 @@ def run(ctx):
 def replay(ctx, case):
     rn = Runner(ctx, 1)
     case = normalise(case)
-    rn.judge([case], [execute(case)], record=False)
+    r = execute(case)
+    if ctx.tier and not ctx.unknown:
+        _CACHE[core.case_hash(case)] = r
+    rn.judge([case], [r], record=False)
